@@ -14,8 +14,7 @@ Record J (s : state) : Prop := mkJ {
   j3 : rcall_stale s = true -> s_startd s = None \/ s_stopping s = true;
   j6 : s_startd s = None -> s_req s = None /\ rcall_active s = false;
   j9 : 1 <= s_att s /\ 0 <= s_ridx s;
-  j11 : if s_susp s then n0 = 0 /\ s_maxatt s = 2 else s_maxatt s = n0;
-  jL : s_looper s <> Some false
+  j11 : if s_susp s then n0 = 0 /\ s_maxatt s = 2 else s_maxatt s = n0
 }.
 
 (* proving J of an explicitly given successor state from J of the state it was built from *)
@@ -23,18 +22,18 @@ Ltac j_explicit :=
   match goal with HJ : J ?x |- J ?y =>
     lazymatch y with context [x] => idtac end;
     let a0 := fresh "a0" in let a1 := fresh "a1" in let a3 := fresh "a3" in let a6 := fresh "a6" in
-    let a9 := fresh "a9" in let a11 := fresh "a11" in let aL := fresh "aL" in
-    destruct HJ as [a0 a1 a3 a6 a9 a11 aL];
+    let a9 := fresh "a9" in let a11 := fresh "a11" in
+    destruct HJ as [a0 a1 a3 a6 a9 a11];
     constructor; unfold parked, rcall_active, rcall_stale in *; psimpl;
     repeat match goal with D : s_rcall x = _ |- _ => rewrite D in * end;
     repeat match goal with D : s_startd x = _ |- _ => rewrite D in * end;
     repeat match goal with D : s_mblock x = _ |- _ => rewrite D in * end;
     repeat match goal with D : s_req x = _ |- _ => rewrite D in * end;
     repeat match goal with D : s_susp x = _ |- _ => rewrite D in * end;
-    repeat match goal with D : s_looper x = _ |- _ => rewrite D in * end;
     cbn [negb Z.eqb] in *;
     solve [ auto | intros; discriminate | intros; congruence | intuition (try congruence; try discriminate; try lia)
-          | split; lia | lia ]
+          | split; lia | lia
+          | bsimp; destruct (s_susp x); intuition (try congruence; try discriminate; try lia) ]
   end.
 
 (* what a nested execution may not do while _stopping is set; _stopping itself is always restored *)
@@ -99,7 +98,7 @@ Lemma retry_fetch_j z s r s' o : retry_fetch z s = (r, s', o) -> J s -> s_req s 
 Proof.
   intros H HJ Hr Hp. unfold retry_fetch in H. mi H; try jdone.
   all: split; [|g2_explicit].
-  all: destruct HJ as [a0 a1 a3 a6 a9 a11 aL]; constructor; unfold parked, rcall_active, rcall_stale in *; psimpl;
+  all: destruct HJ as [a0 a1 a3 a6 a9 a11]; constructor; unfold parked, rcall_active, rcall_stale in *; psimpl;
        rewrite ?D0 in *; auto; try (intros; discriminate); try lia; bsimp.
   all: intro Hs; rewrite Hs in *; discriminate.
 Qed.
@@ -113,7 +112,7 @@ Proof.
   change (is_oor FK_CANCELLED) with false in H1. change (is_cancel FK_CANCELLED) with true in H1.
   mi H1; psimpl; rewrite ?Hst in *; cbn [andb] in *; try discriminate; mi H2.
   all: split; [| split; [g2_explicit | psimpl; auto]].
-  all: destruct HJ as [a0 a1 a3 a6 a9 a11 aL]; constructor; unfold parked, rcall_active, rcall_stale in *; psimpl;
+  all: destruct HJ as [a0 a1 a3 a6 a9 a11]; constructor; unfold parked, rcall_active, rcall_stale in *; psimpl;
        repeat match goal with D : s_mblock _ = _ |- _ => rewrite D in * end;
        repeat match goal with D : s_req _ = _ |- _ => rewrite D in * end;
        auto; try (intros; discriminate); try (intros; congruence).
@@ -121,12 +120,12 @@ Proof.
 Qed.
 
 Lemma stop_rcall_j s r s' o : stop_rcall s = (r, s', o) -> J s -> s_stopping s = true -> rcall_stale s = false ->
-  r = Ok tt /\ J s' /\ s_stopping s' = true /\ s_req s' = s_req s /\ rcall_active s' = false.
+  r = Ok tt /\ J s' /\ s_stopping s' = true /\ s_req s' = s_req s /\ rcall_active s' = false /\ s_startd s' = s_startd s.
 Proof.
   intros H HJ Hst Hns. unfold stop_rcall in H. unfold rcall_stale in Hns. mi H; try (rewrite ?D, ?D0 in Hns; cbn in Hns; discriminate).
-  all: split; [reflexivity|]; split; [| split; [psimpl; assumption | split; [psimpl; reflexivity | unfold rcall_active; psimpl; try rewrite D; reflexivity]]].
+  all: split; [reflexivity|]; split; [| split; [psimpl; assumption | split; [psimpl; reflexivity | split; [unfold rcall_active; psimpl; try rewrite D; reflexivity | psimpl; reflexivity]]]].
   all: try assumption.
-  destruct HJ as [a0 a1 a3 a6 a9 a11 aL]; constructor; unfold parked, rcall_active, rcall_stale in *; psimpl; rewrite ?D in *; auto;
+  destruct HJ as [a0 a1 a3 a6 a9 a11]; constructor; unfold parked, rcall_active, rcall_stale in *; psimpl; rewrite ?D in *; auto;
     try (intros; discriminate).
 Qed.
 (* blocks that never raise *)
@@ -155,7 +154,7 @@ Proof. intros H HJ. unfold stop_susp in H. mi H; jdone. Qed.
 Lemma do_fetch_j s r s' o : do_fetch s = (r, s', o) -> J s -> is_some (s_startd s) = true -> J s' /\ s_stopping s' = s_stopping s.
 Proof.
   intros H HJ Hsd. unfold do_fetch, startd_errback in H. mi H; (split; [| psimpl; reflexivity]); try assumption.
-  all: destruct HJ as [a0 a1 a3 a6 a9 a11 aL]; constructor; unfold parked, rcall_active, rcall_stale, is_some in *; psimpl;
+  all: destruct HJ as [a0 a1 a3 a6 a9 a11]; constructor; unfold parked, rcall_active, rcall_stale, is_some in *; psimpl;
        repeat match goal with D : s_rcall _ = _ |- _ => rewrite D in * end;
        repeat match goal with D : s_startd _ = _ |- _ => rewrite D in * end;
        repeat match goal with D : s_req _ = _ |- _ => rewrite D in * end;
@@ -169,7 +168,7 @@ Lemma handle_error_j (fetch : bool) fk s r s' o :
 Proof.
   intros H HJ Hp Hst.
   assert (HJ1 : J (set_req None s)).
-  { destruct HJ as [a0 a1 a3 a6 a9 a11 aL]; constructor; unfold parked, rcall_active, rcall_stale in *; psimpl; auto; try (intros; congruence).
+  { destruct HJ as [a0 a1 a3 a6 a9 a11]; constructor; unfold parked, rcall_active, rcall_stale in *; psimpl; auto; try (intros; congruence).
     intro Hs. destruct (a6 Hs). split; auto. }
   destruct fetch; [unfold handle_fetch_error in H | unfold handle_offset_error in H]; mi H.
   all: use startd_errback_j; jfwd.
@@ -190,7 +189,8 @@ Definition Pre2 (k : kont) (s : state) : Prop :=
   | _ => True
   end.
 Definition Post2 (k : kont) (s : state) (r : res unit) (s' : state) (o : list output) : Prop :=
-  fuel_ok o = true -> J s -> Pre2 k s -> J s' /\ G2 s s' /\ match k with KStopCds => r = Ok tt | _ => True end.
+  fuel_ok o = true -> J s -> Pre2 k s -> J s' /\ G2 s s' /\
+  match k with KStopCds => r = Ok tt | KStop => is_some (s_startd s) = true -> r = Ok tt | _ => True end.
 
 Section Rec2.
 Variable f : nat.
@@ -317,7 +317,8 @@ Proof.
   all: split; [ jlast | g2_chain ].
 Qed.
 
-Lemma body_KStop_j s r s' o : body (run f) KStop s = (r, s', o) -> fuel_ok o = true -> J s -> s_stopping s = false -> J s' /\ G2 s s'.
+Lemma body_KStop_j s r s' o : body (run f) KStop s = (r, s', o) -> fuel_ok o = true -> J s -> s_stopping s = false ->
+  J s' /\ G2 s s' /\ (is_some (s_startd s) = true -> r = Ok tt).
 Proof.
   intros H Hf HJ Hst. cbn [body] in H. unfold stop_startd in H. mi H; fuel_split; use_ih.
   (* blocks that cannot raise *)
@@ -331,7 +332,7 @@ Proof.
             | E : stop_susp _ = (Exc _, _, _) |- _ => apply stop_susp_ok in E
             end; discriminate).
   (* not running: RestopError *)
-  all: try (split; [assumption | apply G2_refl]).
+  all: try (split; [assumption | split; [apply G2_refl | rewrite D; intro Hx; discriminate Hx]]).
   (* the common prefix: request, block, processor, retry timer *)
   all: assert (HJ0 : J (set_stopping true s)) by j_explicit.
   all: assert (Hns : rcall_stale s = false)
@@ -344,7 +345,7 @@ Proof.
          assert (G02 : G2 (set_stopping true s) x) by g2_chain;
          destruct G02 as (St2 & Rq2 & R2); specialize (R2 eq_refl); psimpl; destruct R2 as (Rc2 & Sd2);
          assert (Hns2 : rcall_stale x = false) by (unfold rcall_stale in *; rewrite Rc2; exact Hns);
-         destruct (stop_rcall_j _ _ _ _ E HJ2 St2 Hns2) as (Hr3 & HJ3 & St3 & Rq3 & Ra3); clear E
+         destruct (stop_rcall_j _ _ _ _ E HJ2 St2 Hns2) as (Hr3 & HJ3 & St3 & Rq3 & Ra3 & Sd3); clear E
        end.
   all: try discriminate Hr3.
   all: match goal with P : J _ -> True -> _ |- _ => destruct (P HJ3 Logic.I) as (HJ4 & HG4 & Hr4); clear P end; try discriminate Hr4.
@@ -358,9 +359,10 @@ Proof.
          assert (Hreq8 : s_req x = None) by (apply Rq8; rewrite Rq3; apply (proj1 (proj2 HG2)); exact Hreq1);
          assert (Hra8 : rcall_active x = false) by (unfold rcall_active in *; rewrite Rc8; exact Ra3)
        end.
-  all: split.
+  all: split; [| split].
   all: try (split; [psimpl; congruence | split; [intros; psimpl; exact Hreq8 | intro Hs; congruence]]).
-  all: destruct HJ8 as [b0 b1 b3 b6 b9 b11 bL]; constructor; unfold parked, rcall_active, rcall_stale in *; psimpl; rewrite ?Hreq8 in *; auto.
+  all: try (intros _; first [reflexivity | exfalso; rewrite D0 in Sd8; rewrite Sd3 in Sd8; rewrite Sd2 in Sd8; rewrite D in Sd8; discriminate Sd8]).
+  all: destruct HJ8 as [b0 b1 b3 b6 b9 b11]; constructor; unfold parked, rcall_active, rcall_stale in *; psimpl; rewrite ?Hreq8 in *; auto.
   all: try (intros; split; [reflexivity | assumption]).
 Qed.
 End Rec2.
@@ -372,7 +374,7 @@ Proof.
   - intros f IH k s r s' o _ H Hf HJ HP.
     assert (IH' : forall k s r s' o, run f k s = (r, s', o) -> Post2 k s r s' o) by (intros; eapply IH; eauto).
     destruct k; cbn [Pre2] in HP.
-    + destruct (body_KStop_j f IH' _ _ _ _ H Hf HJ HP); auto.
+    + destruct (body_KStop_j f IH' _ _ _ _ H Hf HJ HP) as (? & ? & ?); auto.
     + destruct (body_KStopCds_j f IH' _ _ _ _ H Hf HJ) as (? & ? & ?); auto.
     + destruct (body_KFireProc_j f IH' _ _ _ _ _ H Hf HJ); auto.
     + destruct (body_KProcLoop_j f IH' _ _ _ _ _ H Hf HJ); auto.
@@ -389,10 +391,104 @@ Definition Jtop (s : state) : Prop := J s /\ s_stopping s = false.
 Lemma Jtop_init c buf : Jtop (init c n0 buf).
 Proof. split; [|reflexivity]. constructor; cbn; auto; try (intros; discriminate); try lia. Qed.
 
+Lemma do_fetch_start off s r s' o :
+  do_fetch (set_inapi 1 (set_foff off (set_startd (Some false) s))) = (r, s', o) -> J s -> s_startd s = None ->
+  J s' /\ s_stopping s' = s_stopping s /\ is_some (s_startd s') = true.
+Proof.
+  intros H HJ Hsd. destruct (j6 _ HJ Hsd) as (Hreq & Hra).
+  unfold do_fetch, startd_errback in H. mi H; (split; [| split; psimpl; reflexivity]).
+  all: destruct HJ as [a0 a1 a3 a6 a9 a11]; constructor; unfold parked, rcall_active, rcall_stale, is_some in *; psimpl;
+       repeat match goal with D : s_rcall _ = _ |- _ => rewrite D in * end;
+       repeat match goal with D : s_req _ = _ |- _ => rewrite D in * end;
+       auto; try (intros; discriminate); try (intros; congruence);
+       try (intro Hp; destruct (a1 Hp) as [x _]; discriminate x).
+Qed.
+
+Lemma do_fetch_retry s r s' o :
+  do_fetch (set_rcall (Some 2) s) = (r, s', o) -> J s -> rcall_active s = true -> J s' /\ s_stopping s' = s_stopping s.
+Proof.
+  intros H HJ Hra. pose proof (j0 _ HJ Hra) as Hreq.
+  assert (Hsd : s_startd s <> None) by (intro Es; destruct (j6 _ HJ Es) as (_ & x); congruence).
+  unfold do_fetch, startd_errback in H. mi H; (split; [| psimpl; reflexivity]).
+  all: destruct HJ as [a0 a1 a3 a6 a9 a11]; constructor; unfold parked, rcall_active, rcall_stale, is_some in *; psimpl;
+       repeat match goal with D : s_req _ = _ |- _ => rewrite D in * end;
+       auto; try (intros; discriminate); try (intros; congruence);
+       try (intro Hp; destruct (a1 Hp) as [x _]; discriminate x).
+Qed.
+
+Ltac split_state_if := repeat match goal with
+  | |- context [if ?c then set_susp true _ else _] => let E := fresh "E" in destruct c eqn:E
+  | H : context [if ?c then set_susp true _ else _] |- _ => let E := fresh "E" in destruct c eqn:E
+  end.
+Ltac top_ih Hf := fuel_split; repeat match goal with
+  | E : run _ ?k ?s1 = (?r, ?s2, ?o1), Hf : fuel_ok ?o1 = true |- _ =>
+    let P := fresh "P" in pose proof (run_inv _ _ _ _ _ _ E Hf) as P; unfold Pre2 in P; cbn beta iota in P;
+    let F := fresh "F" in pose proof (run_frame _ _ _ _ _ _ E Hf) as F; cbn beta iota in F; destruct F as (_ & F); clear E
+  end.
+Ltac jfwd3 := repeat match goal with
+  | H : J ?a -> _ |- _ =>
+    let P := fresh "P" in assert (P : J a) by (first [assumption | j_explicit]);
+    specialize (H P); clear P;
+    try match type of H with
+        | True -> _ => specialize (H Logic.I)
+        | s_stopping ?x = false -> _ =>
+          let Q := fresh "Q" in assert (Q : s_stopping x = false) by (psimpl; bsimp; congruence); specialize (H Q); clear Q
+        | s_req ?x = Some _ -> _ =>
+          let Q := fresh "Q" in assert (Q : s_req x = Some (R_FETCH, true)) by (psimpl; first [reflexivity | congruence | tauto]); specialize (H Q); clear Q
+        end;
+    let HJ := fresh "HJ" in let HG := fresh "HG" in
+    lazymatch type of H with
+    | J _ /\ G2 _ _ => destruct H as (HJ & HG)
+    | _ => destruct H as (HJ & HG & ?)
+    end; pose proof (proj1 HG)
+  end.
+Ltac jt := jfwd3; split; [ first [assumption | j_explicit] | psimpl; congruence ].
+
 Lemma handle_inv fuel e s s' o : handle fuel e s = (Ok tt, s', o) -> fuel_ok o = true -> Jtop s -> Jtop s'.
 Proof.
   intros H Hf (HJ & Hst). unfold handle in H. cbn zeta in H. destruct e.
-  all: idtac "ev".
-  1: { mi H. Show. 
-Abort.
+  - (* start *) unfold flush_pend in H. mi H.
+    all: try (split; assumption).
+    all: match goal with E : do_fetch _ = _ |- _ => destruct (do_fetch_start _ _ _ _ _ E HJ D) as (HJ1 & Hs1 & Hd1); clear E end.
+    all: jt.
+  - (* stop *) unfold api_stop in H. mi H; top_ih Hf; jt.
+  - (* shutdown *) unfold flush_pend in H. mi H; split_state_if; top_ih Hf; jt.
+  - (* commit *) unfold api_commit in H. mi H; use commit_j; jt.
+  - (* offset reply *) unfold handle_offset_response in H. mi H; try (split; assumption).
+    all: assert (Hsd : is_some (s_startd s) = true)
+           by (destruct (s_startd s) eqn:Es; [reflexivity | destruct (j6 _ HJ Es) as (x & _); congruence]).
+    all: match goal with E : do_fetch ?x = _ |- _ =>
+           assert (HJx : J x) by j_explicit;
+           destruct (do_fetch_j _ _ _ _ E HJx ltac:(psimpl; exact Hsd)) as (HJ2 & Hs2); clear E end.
+    all: split; [assumption | psimpl; congruence].
+  - (* fetch reply *) mi H; try (split; assumption); bsimp; subst; top_ih Hf; jfwd3.
+    + split; [assumption | psimpl; congruence].
+    + match goal with E : handle_fetch_error ?k ?x = _ |- _ =>
+        assert (Hp : parked x = false)
+          by (destruct (parked x) eqn:Ep; [destruct (fk_parked _ _ _ F Ep) as (_ & Hx); discriminate Hx | reflexivity]);
+        destruct (handle_error_j true _ _ _ _ _ E ltac:(assumption) Hp ltac:(psimpl; congruence)) as (? & ?) end.
+      split; assumption.
+  - (* request failure *) mi H; try (split; assumption).
+    all: assert (Hp : parked s = false)
+           by (destruct (parked s) eqn:Ep; [destruct (j1 _ HJ Ep) as (x & _); congruence | reflexivity]).
+    all: match goal with
+         | E : handle_fetch_error _ ?x = _ |- _ =>
+           assert (HJx : J x) by j_explicit;
+           destruct (handle_error_j true _ _ _ _ _ E HJx ltac:(unfold parked in *; psimpl; exact Hp) ltac:(psimpl; exact Hst)) as (? & ?)
+         | E : handle_offset_error _ ?x = _ |- _ =>
+           assert (HJx : J x) by j_explicit;
+           destruct (handle_error_j false _ _ _ _ _ E HJx ltac:(unfold parked in *; psimpl; exact Hp) ltac:(psimpl; exact Hst)) as (? & ?)
+         end.
+    all: split; assumption.
+  - (* plan *) mi H. jt.
+  - (* processor result *) mi H; try (split; assumption); top_ih Hf; jt.
+  - (* commit ok *) mi H; try (split; assumption); top_ih Hf; jt.
+  - (* commit failure *) unfold handle_commit_error in H. mi H; try (split; assumption); top_ih Hf; jt.
+  - (* retry timer *) mi H; try (split; assumption).
+    all: match goal with E : do_fetch _ = _ |- _ =>
+           destruct (do_fetch_retry _ _ _ _ E HJ ltac:(unfold rcall_active; rewrite D; assumption)) as (? & ?) end.
+    all: split; [assumption | psimpl; congruence].
+  - (* commit retry timer *) mi H; try (split; assumption); use send_commit_request_j; jt.
+  - (* auto-commit tick *) mi H; try (split; assumption); use auto_commit_j; jt.
+Qed.
 End Inv.
